@@ -1,7 +1,11 @@
 pub mod c01;
+pub mod c02;
+pub mod c03;
+pub mod c11;
+pub mod padding;
 
 use crate::sim::Check;
 
 pub fn all() -> Vec<&'static dyn Check> {
-    vec![&c01::C01]
+    vec![&c01::C01, &c02::C02, &c03::C03, &padding::C04, &padding::C05, &c11::C11]
 }
